@@ -43,12 +43,18 @@ type Step struct {
 	// handler passes the very map object of its previous metadata step again (MD = its contents now)
 	Mut   int  `json:"mut,omitempty"`
 	Reuse bool `json:"reuse,omitempty"`
+	// Cancel: the context ends because its deadline expires (DeadlineExceeded) instead of a cancel
+	DL bool `json:"dl,omitempty"`
 }
 
 type Scenario struct {
 	Shape     string `json:"shape"` // unary unaryAsStream serverStream clientStream bidi
 	Req       int    `json:"req"`
 	PreCancel bool   `json:"precancel,omitempty"`
+	// PreDL (with PreCancel): the context the call is made on is past its deadline rather than cancelled
+	PreDL bool `json:"predl,omitempty"`
+	// OMD: user metadata the client attaches to its context (request metadata)
+	OMD [][2]int `json:"omd,omitempty"`
 	// the client modifies, in place, the maps Header()/Trailer() gave it and the outgoing metadata it
 	// attached to its context once the call has started
 	CMut  bool   `json:"cmut,omitempty"`
@@ -215,6 +221,42 @@ func userMD(md metadata.MD) [][2]int {
 	return out
 }
 
+// ---- a context whose deadline expires when the driver says so ----
+
+// fakeDeadlineCtx has a deadline (far away, or already past) and ends with context.DeadlineExceeded at
+// the moment expire is called: deadline expiry at a chosen point of a call, without a timer.
+type fakeDeadlineCtx struct {
+	context.Context // values (outgoing metadata)
+	deadline        time.Time
+	done            chan struct{}
+	mu              sync.Mutex
+	err             error
+}
+
+func newFakeDeadlineCtx(parent context.Context, expired bool) *fakeDeadlineCtx {
+	c := &fakeDeadlineCtx{Context: parent, deadline: time.Now().Add(time.Hour), done: make(chan struct{})}
+	if expired {
+		c.deadline = time.Now().Add(-time.Second)
+		c.expire()
+	}
+	return c
+}
+func (c *fakeDeadlineCtx) Deadline() (time.Time, bool) { return c.deadline, true }
+func (c *fakeDeadlineCtx) Done() <-chan struct{}       { return c.done }
+func (c *fakeDeadlineCtx) Err() error {
+	c.mu.Lock()
+	defer c.mu.Unlock()
+	return c.err
+}
+func (c *fakeDeadlineCtx) expire() {
+	c.mu.Lock()
+	if c.err == nil {
+		c.err = context.DeadlineExceeded
+		close(c.done)
+	}
+	c.mu.Unlock()
+}
+
 // ---- messages ----
 
 func mkReq(shape string, m int) proto.Message {
@@ -319,6 +361,7 @@ type callCtl struct {
 	mu            sync.Mutex
 	harnessBug    string
 	incoming      []string // request metadata under outKey as the handler sees it when it returns
+	incomingUser  [][2]int // user request metadata as the handler sees it when it returns
 	incomingExtra bool
 	incomingSeen  bool
 	received      []held // messages the server received, with the value seen on receipt
@@ -365,6 +408,11 @@ func (s *scriptSrv) get(ctx context.Context) *callCtl {
 	// a controller nobody listens to: the handler returns at once
 	c := &callCtl{cmd: make(chan srvCmd), res: make(chan Obs, 4), entered: make(chan Obs, 1), exited: make(chan struct{}), auto: true}
 	return c
+}
+
+func incomingUser(ctx context.Context) [][2]int {
+	md, _ := metadata.FromIncomingContext(ctx)
+	return userMD(md)
 }
 
 type sops struct {
@@ -436,6 +484,7 @@ func (c *callCtl) interp(o sops) Step {
 			in, _ := metadata.FromIncomingContext(o.ctx)
 			c.mu.Lock()
 			c.incoming = append([]string{}, in.Get(outKey)...)
+			c.incomingUser = userMD(in)
 			c.incomingExtra = len(in.Get(outKeyLate)) > 0
 			c.incomingSeen = true
 			c.mu.Unlock()
@@ -460,10 +509,10 @@ func (s *scriptSrv) Unary(ctx context.Context, req *testproto.UnaryRequest) (*te
 	defer close(c.exited)
 	c.hold(req)
 	if c.auto {
-		c.entered <- Obs{K: "entered", M: val(req)}
+		c.entered <- Obs{K: "entered", M: val(req), MD: incomingUser(ctx)}
 		return nil, ctx.Err()
 	}
-	c.entered <- Obs{K: "entered", M: val(req)}
+	c.entered <- Obs{K: "entered", M: val(req), MD: incomingUser(ctx)}
 	st := c.interp(sops{
 		ctx:   ctx,
 		setH:  func(md metadata.MD) error { return grpc.SetHeader(ctx, md) },
@@ -489,8 +538,12 @@ func streamOps[Req, Res any](shape string, stream grpc.ServerStream, mk func(int
 			return any(m).(proto.Message), err
 		},
 		send: func(v int) (proto.Message, error) {
-			m := mk(v)
-			return any(m).(proto.Message), stream.SendMsg(m)
+			m := any(mk(v)).(proto.Message)
+			err := stream.SendMsg(m)
+			// SendMsg has returned: the message is the handler's again (a handler that fills one
+			// message over and over); what the client receives must be what was sent
+			scribble(m, 555)
+			return m, err
 		},
 		setH:  stream.SetHeader,
 		sendH: stream.SendHeader,
@@ -502,7 +555,7 @@ func (s *scriptSrv) ServerStream(req *testproto.ServerStreamRequest, stream grpc
 	c := s.get(stream.Context())
 	defer close(c.exited)
 	c.hold(req)
-	c.entered <- Obs{K: "entered", M: val(req)}
+	c.entered <- Obs{K: "entered", M: val(req), MD: incomingUser(stream.Context())}
 	if c.auto {
 		return stream.Context().Err()
 	}
@@ -514,7 +567,7 @@ func (s *scriptSrv) ServerStream(req *testproto.ServerStreamRequest, stream grpc
 func (s *scriptSrv) ClientStream(stream grpc.ClientStreamingServer[testproto.ClientStreamRequest, testproto.ClientStreamResponse]) error {
 	c := s.get(stream.Context())
 	defer close(c.exited)
-	c.entered <- Obs{K: "entered", M: -1}
+	c.entered <- Obs{K: "entered", M: -1, MD: incomingUser(stream.Context())}
 	if c.auto {
 		return stream.Context().Err()
 	}
@@ -528,7 +581,7 @@ func (s *scriptSrv) ClientStream(stream grpc.ClientStreamingServer[testproto.Cli
 func (s *scriptSrv) BidiStream(stream grpc.BidiStreamingServer[testproto.BidiStreamRequest, testproto.BidiStreamResponse]) error {
 	c := s.get(stream.Context())
 	defer close(c.exited)
-	c.entered <- Obs{K: "entered", M: -1}
+	c.entered <- Obs{K: "entered", M: -1, MD: incomingUser(stream.Context())}
 	if c.auto {
 		return stream.Context().Err()
 	}
@@ -608,6 +661,7 @@ func (c *client) loop() {
 			c.sent = append(c.sent, req)
 			c.mu.Unlock()
 			err := c.stream.SendMsg(req)
+			scribble(req, 555) // the request is the client's again as soon as SendMsg has returned
 			c.res <- Obs{K: "send", Ok: err == nil}
 		case "closesend":
 			err := c.stream.CloseSend()
@@ -727,7 +781,22 @@ func runScenario(sc Scenario, srv *scriptSrv, cc grpc.ClientConnInterface) (tr T
 	callSeq++
 	id := strconv.FormatInt(callSeq, 10)
 	outMD := metadata.Pairs(callIDKey, id, outKey, "5")
-	ctx, cancel := context.WithCancel(metadata.NewOutgoingContext(context.Background(), outMD))
+	for _, kv := range sc.OMD {
+		outMD.Append(keyName(kv[0]), strconv.Itoa(kv[1]))
+	}
+	usesDeadline := sc.PreDL
+	for _, st := range sc.Steps {
+		usesDeadline = usesDeadline || (st.K == "Cancel" && st.DL)
+	}
+	var ctx context.Context
+	var cancel context.CancelFunc
+	if usesDeadline {
+		// the end of this context is a deadline expiry, at the moment the driver chooses
+		f := newFakeDeadlineCtx(metadata.NewOutgoingContext(context.Background(), outMD), sc.PreCancel && sc.PreDL)
+		ctx, cancel = f, f.expire
+	} else {
+		ctx, cancel = context.WithCancel(metadata.NewOutgoingContext(context.Background(), outMD))
+	}
 	defer cancel()
 	defer srv.drop(id)
 	ctl := &callCtl{shape: sc.Shape, cmd: make(chan srvCmd), res: make(chan Obs, 4), entered: make(chan Obs, 1),
@@ -801,6 +870,12 @@ func runScenario(sc Scenario, srv *scriptSrv, cc grpc.ClientConnInterface) (tr T
 		// the call has started: the client goes on using "its" metadata map
 		outMD[outKey][0] = "66"
 		outMD[outKeyLate] = []string{"1"}
+		for k := 0; k < nKeys; k++ {
+			if v := outMD[keyName(k)]; len(v) > 0 {
+				v[0] = "67"
+			}
+			outMD[keyName(k)] = append(outMD[keyName(k)], "68")
+		}
 	}
 
 	// ---- steps ----
@@ -968,6 +1043,10 @@ func (d *driver) checkIncoming() {
 	}
 	if !d.ctl.incomingSeen {
 		return
+	}
+	want := userMD(mkMD(d.sc.OMD))
+	if !sameMD(d.ctl.incomingUser, want) {
+		d.note("aliasing: the handler's incoming metadata shows %v when it returns, after the client modified its outgoing metadata map; sent was %v", d.ctl.incomingUser, want)
 	}
 	if len(d.ctl.incoming) != 1 || d.ctl.incoming[0] != "5" || d.ctl.incomingExtra {
 		d.note("aliasing: the handler's incoming metadata shows %v (late key: %v) after the client modified its outgoing metadata map; sent was [5]", d.ctl.incoming, d.ctl.incomingExtra)
